@@ -6,6 +6,13 @@ ENGINES = [
 ]
 NOTES = 'All checks: ./check <ID> [--tier quick|thorough] [--replay FILE]; exit 0 held / 1 violation / 2 harness problem or inconclusive. See DESIGN.md.'
 CHECKS = {
+ 'C12': {
+  'engine': 'forkrng+oracles',
+  'technique': 'Hypothesis table-driven differential vs independent generation loop; exhaustive whole-run law (forking RNG) vs Reed-Frost / discrete-SIS path probabilities on all graphs n<=3',
+  'design_ref': 'DESIGN.md section 3 C12',
+  'text': 'discrete_SIR with generated deterministic transmission tables and recovery rules is compared (arrays, histories, transmissions) with an independent generation-by-generation reference on graphs n<=8; for basic_discrete_SIR, percolation_based_discrete_SIR and basic_discrete_SIS every Bernoulli outcome is enumerated on every labelled graph n<=3 (thorough: + generated n=4) and the exact probability of every complete trajectory (array and full-data mode) equals the Reed-Frost / discrete SIS chain to 1e-12; percolate_network edge-subset law is exact.',
+  'note': 'Trusts the forking random source. Domain: tmax-tmin whole or infinite; table rules pure.',
+ },
  'C03': {
   'engine': 'forkrng+oracles',
   'technique': 'Hypothesis-generated model specifications and walks; exact step law (forking RNG incl. inverse-CDF scan and rejection sampling) vs specified CTMC rate shares',
